@@ -58,3 +58,4 @@ open SamVerif.IntRange SamVerif.Assign SamVerif.Gates SamVerif.Scope SamVerif.C0
 #print axioms class_as_supertype_rejected
 #print axioms function_in_interface_rejected
 #print axioms rebind_reported
+#print axioms cyclic_flag_monotone_memo
